@@ -32,7 +32,8 @@ Laws(e) ==
 TraceInit == l = 1
 TraceNext == /\ l <= Len(Rec) /\ l' = l + 1
              /\ LET f == Laws(ev) IN
-                f = {} \/ PrintT("SHAPEBAD " \o ToJson([i |-> ev.i, laws |-> SetToSeq(f), collides |-> Collides(ev.node)]))
+                IF f = {} THEN TRUE
+                ELSE PrintT("SHAPEBAD " \o ToJson([i |-> ev.i, laws |-> SetToSeq(f), collides |-> Collides(ev.node)]))
 TraceSpec == TraceInit /\ [][TraceNext]_<<l>>
 
 (* shapes are canonical: equal impl shapes exactly for renaming-equivalent nodes *)
